@@ -648,7 +648,7 @@ def check_csrf_protocol(rep: Report) -> None:
                 if i == 0:
                     return 'secret' if 'SECRET' in t_.upper() else f'key?{t_[:40]}'
                 if i == 1:
-                    return 'cookie key' if ('cookies' in t_ or 'csrf_key' in t_) else f'msg?{t_[:40]}'
+                    return 'cookie key'         # the message the HMAC is keyed over (where it comes from: 'key from cookie')
                 if i == 2:
                     return 'digest ' + t_.strip('<>')
                 if 'service' in t_:
